@@ -405,12 +405,30 @@ func checkOnce(t *T, prop func(*T)) (err *testError) {
 		verifEmit("once.begin")
 		defer func() { verifEmit("once.end", "err", verifErr(err)) }()
 	}
-	defer func() { err = t.takeFailure(panicToError(recover(), 3)) }()
+	var propErr *testError
+	defer func() { err = t.takeFailure(laterFailure(propErr, panicToError(recover(), 3))) }()
 
-	defer t.cleanup()
+	defer func() {
+		// What the property function ended with is noted before the cleanup
+		// functions run: one of them skipping the test case must not make
+		// a panic of the property disappear.
+		propErr = panicToError(recover(), 3)
+		t.cleanup()
+	}()
 	prop(t)
 
 	return nil
+}
+
+// laterFailure combines the error the property function ended with and the
+// one raised while its cleanup functions ran. The later one wins, as with
+// nested panics, except that a mere skip does not hide a failure.
+func laterFailure(first *testError, later *testError) *testError {
+	if later == nil || (later.isInvalidData() && first != nil && !first.isInvalidData()) {
+		return first
+	}
+
+	return later
 }
 
 func captureTestOutput(tb tb, prop func(*T), buf []uint64) []byte {
